@@ -348,6 +348,28 @@ def check_misc(c):
     res = Res()
     n = c['n']
     d = len(n)
+    if c.get('many'):
+        # many rows at once (beyond any internal block size) and extreme magnitudes: shape, dtype, bounds, support
+        m = c['many']
+        for scale in (1.0, 1e-150, 1e+150):
+            res.ev()
+            Y = [G * (scale if k == 0 else 1.0) for k, G in enumerate(space.tt(n, [1] + [2] * (d - 1) + [1], 'nneg', 0))]
+            A = ref.dense(Y)
+            case = dict(c, fn='sample', scale=scale)
+            with warnings.catch_warnings():
+                warnings.simplefilter('ignore')
+                I = teneva.sample(Y, m, seed=0)
+                J = teneva.sample_square(Y, m, unique=False, seed=0)
+            for nm, X in (('sample', I), ('sample_square', J)):
+                good = isinstance(X, np.ndarray) and X.shape == (m, d) and X.dtype.kind in 'iu' and np.all(X >= 0) and np.all(X < np.array(n))
+                res.check(good, 'many.shape', dict(case, fn=nm), lambda: '%s(m=%d) returned shape %s' % (nm, m, getattr(X, 'shape', None)))
+                if good:
+                    res.check(np.all(A[tuple(X.T)] > 0), 'many.support', dict(case, fn=nm), '%s drew an index whose entry is zero (scale %g)' % (nm, scale))
+                    cnt = np.zeros(A.shape)
+                    np.add.at(cnt, tuple(X.T), 1)
+                    res.check(np.all(cnt[A > 0.2 * A.max()] > 0), 'many.coverage', dict(case, fn=nm),
+                              '%s(m=%d) never drew one of the dominant entries (scale %g)' % (nm, m, scale))
+            res.nt(('many', tuple(n), scale))
     for sd in c['seeds']:
         for m in c['ms']:
             res.ev()
@@ -442,6 +464,7 @@ def strata(tier, seed):
     ls = [dict(n=list(n), ms=list(range(1, 13)), seeds=[0, 1, 2, 3, 4], script_m=4 if len(n) == 1 else 0)
           for d in (1, 2, 3) for n in itertools.product(range(1, top + 1), repeat=d)]
     yield Stratum('lhs', ls, 'lhs', size=len(ls), chunk=4, bounds={'n': '{1..%d}^d, d<=3' % top, 'm': '1..12'})
-    ms = [dict(n=list(n), ms=[1, 2, 7], rs=[1, 2, 3, 4], seeds=[0, 1, 2])
+    ms = [dict(n=[3, 2, 3], ms=[1], rs=[2], seeds=[0], many=20001), dict(n=[2, 3], ms=[1], rs=[2], seeds=[0], many=40001)] + \
+         [dict(n=list(n), ms=[1, 2, 7], rs=[1, 2, 3, 4], seeds=[0, 1, 2])
           for d in (1, 2, 3, 4) for n in itertools.product((2, 3, 4) if d > 2 else (1, 2, 3, 4), repeat=d)]
-    yield Stratum('rand / rand_poi / tt layout', ms, 'misc', size=len(ms), chunk=8, bounds={})
+    yield Stratum('rand / rand_poi / tt layout / many rows', ms, 'misc', size=len(ms), chunk=8, bounds={})
